@@ -304,6 +304,15 @@ def read_requests(data: bytes, host_check=True, max_chunk_line=64):
                 break
         if blanks >= 2:
             return out, Verdict("either", "two or more leading blank lines", pos)
+        if data[p : p + 1] == b"\r":
+            # stray CR(s) in front of the request line: neither a blank line nor part of the request line
+            q = p
+            while data[q : q + 1] in (b"\r", b"\n"):
+                q += 1
+            if q < n or True:
+                if q >= n:
+                    return out, Verdict("incomplete", "only CR/LF so far", pos)
+                return out, Verdict("either", "stray CR before the request line", pos)
         if p >= n:
             return out, Verdict("incomplete", "only blank line so far", pos)
         if data[p : p + 1] == b"\r" and p + 1 >= n:
@@ -318,6 +327,10 @@ def read_requests(data: bytes, host_check=True, max_chunk_line=64):
         r.start = start
         # --- request line
         rl = lines[0]
+        if rl.endswith(b"\r"):
+            # "request-line CR CR LF": a strict reader rejects the stray CR, Tornado's documented start-line
+            # handling strips trailing CRs; the statement does not decide it
+            return out, Verdict("either", "stray CR at the end of the request line", pos)
         parts = rl.split(b" ")
         if len(parts) != 3:
             return out, Verdict("reject", "request line does not have three SP-separated parts", pos)
